@@ -160,7 +160,7 @@ vox_read_s (SF_PRIVATE *psf, short *ptr, sf_count_t len)
 	while (len > 0)
 	{	readcount = (len > 0x10000000) ? 0x10000000 : (int) len ;
 
-		count = vox_read_block (psf, pvox, ptr, readcount) ;
+		count = vox_read_block (psf, pvox, ptr + total, readcount) ;
 
 		total += count ;
 		len -= count ;
@@ -297,7 +297,7 @@ vox_write_s (SF_PRIVATE *psf, const short *ptr, sf_count_t len)
 	while (len)
 	{	writecount = (len > 0x10000000) ? 0x10000000 : (int) len ;
 
-		count = vox_write_block (psf, pvox, ptr, writecount) ;
+		count = vox_write_block (psf, pvox, ptr + total, writecount) ;
 
 		total += count ;
 		len -= count ;
